@@ -704,12 +704,10 @@ def probe_builder():
             hit = [f for f in row if float(row[f]) == float(vals[a])]
             if special:
                 continue
-            if len(hit) == 1:
-                fields.append([hit[0], a])
-            elif not hit:
+            if not hit:
                 lost.append(a)
-            else:
-                raise Abort("builder: argument %s appears in fields %s" % (a, hit))
+            for h in hit:
+                fields.append([h, a])
         entry.update(variant=v, fields=sorted(fields), lost=lost,
                      pathform=[("list" if "/" in str(getattr(o, x))[3:] else "index" if "[" in str(getattr(o, x)) else "bare")
                                for x in (("pre_cell_id", "post_cell_id") if kind == "projection" else ("pre_cell", "post_cell"))])
@@ -739,12 +737,10 @@ def probe_builder():
                 if a == "weight" and unitw:
                     continue
                 hit = [f for f in row if float(row[f]) == float(vals[a])]
-                if len(hit) == 1:
-                    fields.append([hit[0], a])
-                elif not hit:
+                if not hit:
                     lost.append(a)
-                else:
-                    raise Abort("builder: argument %s appears in fields %s" % (a, hit))
+                for h in hit:
+                    fields.append([h, a])
             entry.update(variant=v, fields=sorted(fields), lost=lost, pathform=["list" if "/" in o.target[3:] else "index"])
             out.append(entry)
     # locations
@@ -878,6 +874,146 @@ def probe_delay_units():
     return out
 
 
+
+# ------------------------------------------------------------------------------------------ column selection decisions
+SEL_DEFAULT = {"pre_seg": 0, "post_seg": 0, "pre_fract": 0.5, "post_fract": 0.5, "seg": 0, "fract": 0.5, "weight": 1.0, "delay": 0.0,
+               "x": 0.0, "y": 0.0, "z": 0.0}
+SEL_OFF = {"pre_seg": 3, "post_seg": 2, "pre_fract": 0.25, "post_fract": 0.75, "seg": 4, "fract": 0.125, "weight": 2.5, "delay": 1.5,
+           "x": 1.5, "y": 2.5, "z": 3.5}
+
+
+def sel_row(kind, variant, off, rid, values=None):
+    """one row object of the variant with every defaultable field at its default except `off` (a set of fields);
+    -> (object, semantic values incl. id / cells)"""
+    n = neuroml
+    v = dict((f, SEL_DEFAULT[f]) for f in ROWFIELDS[kind] if f in SEL_DEFAULT)
+    for f in off:
+        if f in v:
+            v[f] = SEL_OFF[f]
+    for f, val in (values or {}).items():
+        v[f] = val
+    if kind == "projection":
+        kw = dict(id=rid, pre_cell_id="../PRE[1]", post_cell_id="../POST/2/comp", pre_segment_id=v["pre_seg"], post_segment_id=v["post_seg"],
+                  pre_fraction_along=v["pre_fract"], post_fraction_along=v["post_fract"])
+        if variant == "Connection":
+            v["weight"], v["delay"] = 1.0, 0.0
+            o = n.Connection(**kw)
+        else:
+            o = n.ConnectionWD(weight=v["weight"], delay="%sms" % v["delay"], **kw)
+        v.update(id=rid, pre_cell=1, post_cell=2)
+    elif kind in ("electrical", "continuous"):
+        inst = not variant.endswith("Connection")
+        kw = dict(id=rid, pre_cell="../PRE/1/comp" if inst else "1", post_cell="../POST[2]" if inst else "2", pre_segment=v["pre_seg"],
+                  post_segment=v["post_seg"], pre_fraction_along=v["pre_fract"], post_fraction_along=v["post_fract"])
+        if kind == "electrical":
+            kw["synapse"] = "syn"
+        else:
+            kw["pre_component"], kw["post_component"] = "prec", "postc"
+        if variant.endswith("W"):
+            kw["weight"] = v["weight"]
+        else:
+            v["weight"] = 1.0
+        o = getattr(n, variant)(**kw)
+        v.update(id=rid, pre_cell=1, post_cell=2)
+    elif kind == "inputlist":
+        kw = dict(id=rid, target="../POP/1/comp", destination="synapses", segment_id=v["seg"], fraction_along=v["fract"])
+        if variant == "InputW":
+            kw["weight"] = v["weight"]
+        else:
+            v["weight"] = 1.0
+        o = getattr(n, variant)(**kw)
+        v.update(id=rid, cell=1)
+    else:
+        o = n.Instance(id=rid)
+        o.location = n.Location(x=v["x"], y=v["y"], z=v["z"])
+        v.update(id=rid)
+    # the values as the harness-side projection sees them must be the intended ones
+    got = semrow(kind, o)
+    for f in v:
+        if f in got and float(got[f]) != float(v[f]):
+            raise Abort("selection probe: field %s is %r, intended %r" % (f, got[f], v[f]))
+    return o, v
+
+
+def sel_export(kind, spec):
+    """spec: [(variant, off-set)] in document order -> probe entry"""
+    cont, _ = make_container(kind, "S")
+    rows = []
+    for i, (variant, off) in enumerate(spec):
+        o, v = sel_row(kind, variant, off, 10 + i)
+        getattr(cont, LISTS[variant]).append(o)
+        rows.append([variant, v])
+    # element lists are written one after the other: document order of the rows
+    rows.sort(key=lambda r: VARIANTS[kind].index(r[0]))
+    f = MFile()
+    top = MNode("network")
+    cont.exportHdf5(f, top)
+    arrs = [c for c in top.children[0].children if isinstance(c, MArray)]
+    if len(arrs) != 1:
+        raise Abort("selection probe %s: %d arrays" % (kind, len(arrs)))
+    a = arrs[0]
+    names = {}
+    for k, val in a.attrs:
+        names[int(k[len("column_"):])] = str(val)
+    offs = sorted(set(x for _, o in spec for x in o))
+    return {"kind": kind, "off": offs[0] if len(offs) == 1 else ("" if not offs else "*"),
+            "rows": rows, "names": [names.get(j) for j in range(a.obj.shape[1])]}
+
+
+def probe_selection():
+    """every decision 'are these columns written' probed with exactly one field off its default at a time (alone, in the
+    second of two rows, in either element list), with none and with all off"""
+    out = []
+    for kind in ("projection", "electrical", "continuous", "inputlist", "population"):
+        vs = VARIANTS[kind]
+        for variant in vs:
+            fields = [f for f in ROWFIELDS[kind] if f in SEL_DEFAULT]
+            own = [f for f in fields if not (f == "weight" and not (variant.endswith("W") or variant == "ConnectionWD"))
+                   and not (f == "delay" and variant != "ConnectionWD")]
+            out.append(sel_export(kind, [(variant, set())]))
+            out.append(sel_export(kind, [(variant, set(own))]))
+            for f in own:
+                out.append(sel_export(kind, [(variant, {f})]))
+                out.append(sel_export(kind, [(variant, set()), (variant, {f})]))   # only a later row decides
+        if len(vs) > 1:
+            for f in [f for f in ROWFIELDS[kind] if f in SEL_DEFAULT and f not in ("weight", "delay")]:
+                out.append(sel_export(kind, [(vs[0], set()), (vs[-1], {f})]))      # only the other element list decides
+                out.append(sel_export(kind, [(vs[0], {f}), (vs[-1], set())]))
+            out.append(sel_export(kind, [(vs[0], set()), (vs[-1], set())]))
+    return out
+
+
+def probe_zero(writer):
+    """a field whose value is 0 (a falsy value in python) while its default is not 0 must be written as 0: for every kind,
+    variant and such field -> [kind, variant, field, cell is 0.0]"""
+    out = []
+    for kind in ("projection", "electrical", "continuous", "inputlist"):
+        for variant in VARIANTS[kind]:
+            fields = [f for f in ROWFIELDS[kind] if f in SEL_DEFAULT and SEL_DEFAULT[f] != 0
+                      and not (f == "weight" and not (variant.endswith("W") or variant == "ConnectionWD"))]
+            for f in fields:
+                cont, _ = make_container(kind, "Z")
+                o, v = sel_row(kind, variant, set(x for x in SEL_OFF if x != f), 7, values={f: 0.0})
+                getattr(cont, LISTS[variant]).append(o)
+                mf = MFile()
+                top = MNode("network")
+                cont.exportHdf5(mf, top)
+                a = [c for c in top.children[0].children if isinstance(c, MArray)][0]
+                names = dict((int(k[len("column_"):]), str(val)) for k, val in a.attrs)
+                # the column that carries f according to the writer table of this (kind, variant)
+                col = None
+                for w in writer:
+                    if w["kind"] == kind:
+                        for vv in w["variants"]:
+                            if vv["variant"] == variant:
+                                for j, c in enumerate(vv["cols"]):
+                                    if c == ["SField", f]:
+                                        col = w["names"][j]
+                js = [j for j in names if names[j] == col]
+                out.append([kind, variant, f, bool(col is not None and len(js) == 1 and float(a.obj[0, js[0]]) == 0.0)])
+    return out
+
+
 # ------------------------------------------------------------------------------------------ Coq rendering
 def cs(s):
     assert all(ord(c) < 128 for c in s)
@@ -894,7 +1030,7 @@ def cb(b):
 
 def render(t):
     L = ["(* generated by translators/tr_h5layout.py from the tree under test; do not edit *)",
-         "From Coq Require Import String List Bool.", "From LNML Require Import Model.H5.", "Import ListNotations.",
+         "From Coq Require Import String List Bool ZArith.", "From LNML Require Import Model.H5.", "Import ListNotations.",
          "Open Scope string_scope.", ""]
 
     def src(s):
@@ -947,11 +1083,24 @@ def render(t):
              cl(["(%s, %s)" % (cs(k), cl(["(%s, %s)" % (cs(f), cb(v)) for f, v in sorted(d.items())])) for k, d in sorted(t["builder_strings"].items())]))
     L.append("Definition refusals : list (string * bool) := %s." % cl(["(%s, %s)" % (cs(k), cb(v)) for k, v in t["refusals"]]))
     L.append("Definition delay_units : list (string * bool) := %s." % cl(["(%s, %s)" % (cs(k), cb(v)) for k, v in t["delay_units"]]))
+    def zq(x):
+        q = float(x) * 1024
+        if abs(q - round(q)) > 1e-9:
+            raise Abort("selection probe value %r is not a multiple of 1/1024" % x)
+        return "(%d)%%Z" % round(q)
+    sp = []
+    for p in t["select"]:
+        rows = cl(["(%s, %s)" % (cs(v), cl(["(%s, %s)" % (cs(k), zq(val)) for k, val in sorted(vals.items())])) for v, vals in p["rows"]])
+        sp.append("{| sp_kind := %s; sp_off := %s; sp_rows := %s;\n     sp_names := %s |}" % (
+            cs(p["kind"]), cs(p["off"]), rows, cl(["None" if nm is None else "Some %s" % cs(nm) for nm in p["names"]])))
+    L.append("Definition select_probes : list selprobe :=\n  " + cl(["\n   " + x for x in sp]) + ".\n")
+    L.append("Definition zero_cells : list (string * string * string * bool) := %s.\n" %
+             cl(["(%s, %s, %s, %s)" % (cs(k), cs(v), cs(f), cb(ok)) for k, v, f, ok in t["zero"]]))
     L.append("\nDefinition gen : h5gen := {| g_writer := writer_tables; g_reader := reader_tables; g_builder := builder_table;\n"
              "  g_sized_pop_w := sized_population_gattrs; g_sized_pop_r := sized_population_gattrs_r;\n"
              "  g_doc_w := document_gattrs_w; g_doc_r := document_gattrs_r; g_net_w := network_gattrs_w; g_net_r := network_gattrs_r;\n"
              "  g_prop_prefix := property_prefix_ok; g_none_notes := none_notes_read_as; g_absent_temp := absent_temperature_read_as;\n"
-             "  g_builder_strings := builder_strings; g_refusals := refusals; g_delay_units := delay_units |}.")
+             "  g_builder_strings := builder_strings; g_refusals := refusals; g_delay_units := delay_units;\n  g_select := select_probes; g_zero := zero_cells |}.")
     return "\n".join(L) + "\n"
 
 
@@ -971,6 +1120,8 @@ def main():
     t["builder_strings"] = probe_builder_strings()
     t["refusals"] = probe_refusals()
     t["delay_units"] = probe_delay_units()
+    t["select"] = probe_selection()
+    t["zero"] = probe_zero(t["writer"])
     print(json.dumps({"json": t, "coq": render(t)}))
 
 
